@@ -117,6 +117,13 @@ def mk_se(tu):
     return SymExec(tu, own=lambda f: f['q'].startswith('rkcommon::'), inline_stmt=follow_c10, recognise_search=True)
 
 
+def paths_of(se, f, args=None):
+    """path summaries of f; a function that begins with its own search loop (iterator / range-for loop that acts on the match inside
+    the loop) is first rewritten into the equivalent `L = find_if(...); if (L == end) ... else ...` form"""
+    lf = se.lookup_form(f, args=args)
+    return lf if lf is not None else se.paths(f, args=args)
+
+
 def is_followed_helper(tu, f, class_fns):
     """private member that the path summariser splices into its callers and that some other member of the class calls: it is
     never an entry point, so the path rules (insert only after a failed lookup, derived-state obligations) judge it inside its
@@ -390,7 +397,7 @@ def check_sequence_rules(ctx, tu, se, seq, fns, file_of, tag, counts):
         loc = tu.fn_loc(f)
         file = tu.fn_file(f)
         try:
-            paths = se.paths(f)
+            paths = paths_of(se, f)
         except Unsupported as e:
             ctx.undecided(R2, inst, 'control flow not supported by the path summariser: %s' % e, loc)
             continue
@@ -587,7 +594,7 @@ def canon_calls(nf):
 
 def summary_sig(se, seq, f):
     """hashable signature of a function's behaviour: per path (conditions, sequence effects, result)"""
-    paths = se.paths(f)
+    paths = paths_of(se, f)
     sig = set()
     for p in paths:
         conds = frozenset((unver(c), pol) for c, pol, _ in p.conds)
@@ -684,6 +691,11 @@ def check_flatmap(ctx, tu, tag=''):
             shape = None
             if name == 'at' and paths and all(seq.lookup_cond(p_) is None for p_ in paths):
                 shape = se.function_search_shape(f)     # at() written as its own search loop
+            if shape is None:
+                try:
+                    paths = paths_of(se, f)
+                except Unsupported:
+                    pass
             if name == 'at' and shape is not None:
                 n3 += 1
                 strip_copy = lambda x: se._subst(x, {}) if False else x
@@ -796,7 +808,11 @@ def check_flatmap(ctx, tu, tag=''):
                             und.append(('inserted-value', 'the value inserted for a missing key is `%s`, not VALUE()' % show(val)))
                         rv = p.term[1] if p.term[0] == 'return' else None
                         want = ('field', ('call', 'std::vector::back', S), 'second')
-                        if rv is None or unver(rv) != want:
+                        # values[i] with i the position of the failed lookup = the old size = the index of the element just appended
+                        at_old_end = ('field', ('elem', S, ('call', 'std::distance', None, vbegin(S), L)), 'second')
+                        if rv is not None and unver(rv) == at_old_end:
+                            pass
+                        elif rv is None or unver(rv) != want:
                             (und if rv is None or has_unknown(unver(rv)) else probs).append(
                                 ('wrong-element', 'after appending, operator[] returns `%s` instead of the new last element\'s .second'
                                  % (show(rv) if rv is not None else p.term[0])))
@@ -1065,7 +1081,7 @@ def check_paramobj(ctx, tu, tag=''):
         probs, und = [], []
         K = ('param', 0, finder['params'][0].get('name') or '')
         try:
-            paths = se.paths(finder, args=(K, ('const', flag)))
+            paths = paths_of(se, finder, args=(K, ('const', flag)))
         except Unsupported as e:
             return [], [('paths', str(e))]
         for p in paths:
@@ -1166,7 +1182,7 @@ def check_paramobj(ctx, tu, tag=''):
         loc = tu.fn_loc(f)
         file = tu.fn_file(f)
         try:
-            paths = se.paths(f)
+            paths = paths_of(se, f)
         except Unsupported as e:
             ctx.undecided(R5, inst, str(e), loc)
             continue
@@ -1603,7 +1619,7 @@ def check_aux_state(ctx, tu, se, seq, fns, r, finder, aux_names, info, names, ta
         if is_followed_helper(tu, f, fns):
             continue
         try:
-            paths = se.paths(f)
+            paths = paths_of(se, f)
         except Unsupported:
             continue
         fconst = bool(f.get('const'))
